@@ -225,7 +225,7 @@ func verifyUnit(w *World, u *Unit, opt Options) *UnitResult {
 		if r.Status != "sat" && r.Status != "unsat" && opt.Thorough {
 			// thorough tier — no model found quickly (quantified assumptions): give the solvers the time an obligation gets to find a
 			// contradiction among the assumptions, which is what a vacuous unit would be
-			r = solveCover(q, sanitize(u.Name)+".vac2", 15000)
+			r = solveCover(q, sanitize(u.Name)+".vac2", 8000)
 		}
 		switch r.Status {
 		case "sat":
